@@ -186,6 +186,10 @@ func (w *world) openNode(path string, genesisSig cipher.Sig) (*node, error) {
 	cfg.GenesisTimestamp = w.genTime
 	cfg.GenesisSignature = genesisSig
 	cfg.Distribution = params.MainNetDistribution
+	// the publisher creates blocks from its pool under the soft constraints: allow
+	// every droplet amount (the wallet simulator splits down to 1 droplet)
+	cfg.UnconfirmedVerifyTxn.MaxDropletPrecision = 6
+	cfg.CreateBlockVerifyTxn.MaxDropletPrecision = 6
 	v, err := visor.New(cfg, db, nil)
 	if err != nil {
 		bdb.Close()
@@ -623,7 +627,7 @@ func (w *world) blockName(p *printer, sb coin.SignedBlock, headSeq uint64) strin
 
 // dump projects the node's state. The digest covers everything a rejected
 // block must leave unchanged.
-func (w *world) dump(p *printer, n *node, withCheck bool) (string, []coin.UxOut, error) {
+func (w *world) dump(p *printer, n *node, withCheck bool, poolOK bool) (string, []coin.UxOut, error) {
 	head, err := n.head()
 	if err != nil {
 		return "", nil, err
@@ -665,10 +669,10 @@ func (w *world) dump(p *printer, n *node, withCheck bool) (string, []coin.UxOut,
 			storedSigOK = e1 == nil && e2 == nil && pkRec == w.pub
 		}
 	}
-	ut, err := n.v.GetAllUnconfirmedTransactions()
-	if err == nil {
-		fmt.Fprintf(&dg, "p %d\n", len(ut))
-	}
+	// the unconfirmed pool: a rejected block must leave it as it was (compared
+	// around the op by the caller; the harness itself injects transactions between
+	// ops on publisher nodes, so the pool size is not part of the digest)
+	fmt.Fprintf(&dg, "p %v\n", poolOK)
 	md, err := n.v.GetBlockchainMetadata()
 	if err == nil {
 		fmt.Fprintf(&dg, "m %d %d\n", md.HeadBlock.Head.BkSeq, md.Unspents)
@@ -682,6 +686,20 @@ func (w *world) dump(p *printer, n *node, withCheck bool) (string, []coin.UxOut,
 	term := fmt.Sprintf("mkDump %s %d %s %s %d %s %s %s %d", Z(head.Head.BkSeq), w.id(head.HashHeader()), Z(head.Head.Time), Z(low64(xh)),
 		w.id(storedHash), B(storedSigOK), B(dbOK), List(items), w.digestID(hex.EncodeToString(d[:])))
 	return p.def("d", "dump", term), uxs, nil
+}
+
+// poolKey is the sorted list of the hashes in the node's unconfirmed pool.
+func poolKey(n *node) string {
+	ut, err := n.v.GetAllUnconfirmedTransactions()
+	if err != nil {
+		return "error: " + err.Error()
+	}
+	var hs []string
+	for _, u := range ut {
+		hs = append(hs, u.Transaction.Hash().Hex())
+	}
+	sort.Strings(hs)
+	return strings.Join(hs, ",")
 }
 
 // checkDB runs visor.CheckDatabase under a watchdog (a hang is an observable).
@@ -717,7 +735,7 @@ var mutKinds = []string{
 	"wrong_signer", "null_sig", "drop_sig", "bad_inner", "bad_length", "bad_type", "garble_sig", "dup_out",
 	"time_eq", "time_minus1", "time_plus1", "seq_plus1", "seq_minus1", "seq_zero", "fee_plus1", "version_plus1",
 	"prevhash", "bodyhash", "uxhash", "empty_block", "drop_txn", "permute_txns",
-	"sig_bitflip", "sig_otherkey", "sig_null",
+	"sig_bitflip", "sig_otherkey", "sig_null", "sig_replay", "sig_replay", "sig_replay",
 	"dup_block", "old_block", "out_of_order", "second_genesis", "unknown_input",
 }
 
@@ -736,6 +754,7 @@ type history struct {
 	spent    []coin.UxOut // outputs spent by accepted blocks
 	unspent  []coin.UxOut
 	hist     Hist
+	nodeSig  *cipher.Sig // the signature the node itself produced most recently (publisher node)
 }
 
 // nextValid builds a valid next block on the node's current head with k transactions.
@@ -772,6 +791,49 @@ func (h *history) nextValid(n *node, unspent []coin.UxOut, k int) (coin.Block, b
 		t = head.Head.Time + 1
 	}
 	return mkBlock(head, t, xh, txns), true
+}
+
+// nodeSigned lets the PUBLISHER node create and sign the next block itself
+// (unconfirmed pool -> createBlock -> signBlock, the path behind
+// CreateAndExecuteBlock, at an explicit time): a transaction meeting the soft
+// constraints is injected into its pool first. The signed block is then
+// submitted like any other op.
+func (h *history) nodeSigned() (opRec, bool) {
+	w := h.w
+	head, err := h.n.head()
+	if err != nil {
+		return opRec{}, false
+	}
+	var cand []coin.UxOut
+	for _, ux := range h.unspent {
+		if _, ok := w.keyOf[ux.Body.Address]; ok && hoursAt(ux, head.Head.Time) > 0 {
+			cand = append(cand, ux)
+		}
+	}
+	if len(cand) == 0 {
+		return opRec{}, false
+	}
+	ux := cand[w.r.Intn(len(cand))]
+	hr := hoursAt(ux, head.Head.Time)
+	outs := w.splitOuts(ux.Body.Coins, hr/2)
+	var so uint64
+	for _, o := range outs {
+		so += o.Hours
+	}
+	if so > hr/2 { // splitOuts never exceeds its budget; keep the fee >= 1/2 of the hours anyway
+		return opRec{}, false
+	}
+	t := w.buildTxn([]coin.UxOut{ux}, outs, txOpt{})
+	if _, softErr, err := h.n.v.InjectForeignTransaction(t); err != nil || softErr != nil {
+		return opRec{}, false
+	}
+	sb, err := h.n.v.VerifCreateBlock(head.Head.Time + uint64(1+w.r.Intn(100000)))
+	if err != nil {
+		return opRec{}, false
+	}
+	sig := sb.Sig
+	h.nodeSig = &sig
+	return opRec{kind: "node_signed", resigned: true, sb: sb}, true
 }
 
 func rehash(b *coin.Block) { b.Head.BodyHash = b.Body.Hash() }
@@ -1044,7 +1106,7 @@ func (h *history) mutate(kind string) (opRec, bool) {
 		if r.Bool() {
 			rehash(&b)
 		}
-	case "sig_bitflip", "sig_otherkey", "sig_null":
+	case "sig_bitflip", "sig_otherkey", "sig_null", "sig_replay":
 		resign = false
 	case "dup_block", "old_block":
 		if len(h.accepted) == 0 {
@@ -1095,6 +1157,27 @@ func (h *history) mutate(kind string) (opRec, bool) {
 			sb.Sig = w.detSign(b.HashHeader(), w.otherSec)
 		case "sig_null":
 			sb.Sig = cipher.Sig{}
+		case "sig_replay":
+			// a signature taken from elsewhere on this chain (all of them are public):
+			// the head's, an earlier block's, the genesis block's, or the one the node
+			// itself produced last (publisher node)
+			var srcs []cipher.Sig
+			if hb, err := h.n.head(); err == nil {
+				srcs = append(srcs, hb.Sig, hb.Sig)
+			}
+			for _, a := range h.accepted {
+				srcs = append(srcs, a.Sig)
+			}
+			if g, err := h.n.v.GetSignedBlockBySeq(0); err == nil && g != nil {
+				srcs = append(srcs, g.Sig)
+			}
+			if h.nodeSig != nil {
+				srcs = append(srcs, *h.nodeSig, *h.nodeSig, *h.nodeSig)
+			}
+			if len(srcs) == 0 {
+				return opRec{}, false
+			}
+			sb.Sig = srcs[r.Intn(len(srcs))]
 		}
 	}
 	return opRec{kind: kind, resigned: resign, sb: sb}, true
@@ -1148,7 +1231,13 @@ func run(args []string) error {
 				w.id(gb.Head.PrevHash), w.id(gb.Head.BodyHash), Z(low64(gb.Head.UxHash)))
 			return p.def("b", "block", fmt.Sprintf("mkBlock %s %d %d true [%s]", hd, w.id(gb.HashHeader()), w.id(gb.Body.Hash()), tt))
 		}()
-		d0, uxs, err := w.dump(p, nd, true)
+		if w.arb {
+			if g, e := nd.v.GetSignedBlockBySeq(0); e == nil && g != nil {
+				gs := g.Sig
+				h.nodeSig = &gs // the publisher signed the genesis block in this process
+			}
+		}
+		d0, uxs, err := w.dump(p, nd, true, true)
 		if err != nil {
 			nd.close()
 			return err
@@ -1165,9 +1254,14 @@ func run(args []string) error {
 			var op opRec
 			ok := false
 			if r.Chance(42) || k == 1 {
-				b, okb := h.nextValid(nd, h.unspent, 1+r.Intn(3))
-				if okb {
-					op, ok = opRec{kind: "valid", resigned: true, sb: w.sign(b, w.sec)}, true
+				if w.arb && r.Chance(35) {
+					op, ok = h.nodeSigned()
+				}
+				if !ok {
+					b, okb := h.nextValid(nd, h.unspent, 1+r.Intn(3))
+					if okb {
+						op, ok = opRec{kind: "valid", resigned: true, sb: w.sign(b, w.sec)}, true
+					}
 				}
 			} else {
 				for try := 0; try < 4 && !ok; try++ {
@@ -1183,8 +1277,10 @@ func run(args []string) error {
 				return err
 			}
 			bname := w.blockName(p, op.sb, head.Head.BkSeq)
+			poolBefore := poolKey(nd)
 			var execErr error
 			panicked := Guard(func() { execErr = nd.v.ExecuteSignedBlock(op.sb) })
+			poolOK := execErr == nil && !panicked || poolKey(nd) == poolBefore
 			res := "Accepted"
 			cls := ""
 			if panicked {
@@ -1193,7 +1289,7 @@ func run(args []string) error {
 				cls = errClass(execErr)
 				res = "(Rejected " + cls + ")"
 			}
-			dn, uxs, err := w.dump(p, nd, true)
+			dn, uxs, err := w.dump(p, nd, true, poolOK)
 			if err != nil {
 				nd.close()
 				return err
